@@ -266,3 +266,86 @@ prop(
     rule="evaluations = (flag subset, explicit option set) pairs, all distinct; each judges 1-7 explicit probes and 6 single-source probes",
     tiers={"quick": {"shards": 1, "budget": 60}, "thorough": {"shards": 1, "budget": 60}},
 )
+
+ENGINES.append({"name": "wxlib", "path": "harness/wxlib", "serves_properties": ["C01", "C02", "C08", "C13", "C15"],
+                "kind_free_text": "E3 in-process engine (real time): a real Watchexec instance (action worker, filter, error hook, event sources) "
+                                  "driven by concurrent producers, recording filterer, handlers and (hook H1) a recording / wrapping watcher; "
+                                  "offline checkers over the recorded history; heartbeat-guarded bounded-progress waits"})
+
+_RT_NOTE = ("real time on a shared machine: only sound inequalities are verdicts (a handler entered >= throttle after the producer's pre-send "
+            "timestamp holds on any machine); anything resting on an upper bound is re-run 5 times and reported only when it repeats in "
+            ">= 4 healthy runs (heartbeat gap < 500 ms), otherwise counted inconclusive; every event carries a unique id in its metadata")
+
+prop(
+    "C01",
+    title="Accepted events reach the action handler exactly once; rejected ones never",
+    engine="wxlib",
+    level="exploration",
+    level_text=("seeded random streams through a real Watchexec instance: 1-8 concurrent producers on a 2-8-thread runtime, 5-120 events "
+                "each over all tag kinds (path, signal, keyboard, process, completion, source, empty) and priorities, per-event filter "
+                "verdict pass / reject / error, queue size {1, 2, 8, 4096} (back pressure), throttle {0, 1, 5, 20, 50 ms}, sync and async "
+                "handlers of 0-10 ms, arrival gaps from 0 to 2x throttle; plus real filesystem operations (create / write / rename / "
+                "remove / mkdir -p / rm -r) under the native and the poll watcher, each notify event stamped with a unique id by a "
+                "wrapping watcher (hook H1). Offline set oracle: delivered multiset == {sent ok and (urgent or empty or pass)} with all "
+                "multiplicities 1, nothing rejected / erroring / unsent delivered, no empty batch"),
+    level_note=_RT_NOTE + "; loss inside inotify / notify before the hook is out of reach",
+    technique="offline conservation checker (exactly-once / no-loss between producer and consumer event logs) over stress workloads",
+    rule=("evaluations = scenarios (one Watchexec instance each); non-trivial = history with >=2 batches or a batch of >=2 events, distinct "
+          "by the abstract history (batch sizes and priority composition, times and ids erased)"),
+    tiers={"quick": {"shards": NC, "budget": 40, "min_evaluations": 300}, "thorough": {"shards": NC, "budget": 420}},
+)
+
+prop(
+    "C02",
+    title="Debounce: one action per window, never before the window has elapsed",
+    engine="wxlib",
+    level="exploration",
+    level_text=("scenario classes over throttle {0, 1, 5, 20, 50, 200 ms, 2 s}: single event; burst inside the window with stragglers "
+                "around its end; run-time throttle changes between cycles; urgent event into a half-filled 2 s window; continuous "
+                "accepted streams with handlers up to 3x the window; accepted event followed by an unending stream of rejected or "
+                "erroring events (no starvation); random mixes. Oracles: (sound) a non-urgent batch is entered no earlier than throttle "
+                "after the earliest pre-send timestamp of its members and no earlier than throttle after the previous handler "
+                "returned; urgent events never reach the filterer; (confirmed by repetition) urgent delivered within 1 s, an event "
+                "sent in the first half of a window is not in a later batch, the batch is delivered while the rejected stream runs"),
+    level_note=_RT_NOTE + "; a window that is too long by less than the margins is not visible in real time",
+    technique="offline timing checker over producer / filter / handler timestamps from one monotonic clock (sound lower bounds; confirmed upper bounds)",
+    rule="evaluations = scenarios; non-trivial = history with >=2 batches or a batch of >=2 events, distinct by abstract history",
+    tiers={"quick": {"shards": NC, "budget": 40, "min_evaluations": 200}, "thorough": {"shards": NC, "budget": 420}},
+)
+
+prop(
+    "C15",
+    title="Runtime errors reach the error handler once and stop nothing unless elevated",
+    engine="wxlib",
+    level="fault_enumeration",
+    level_text=("injected faults: filter errors on chosen events (unique text per event) in bursts larger than the error queue (1, 2, 64), "
+                "watch / unwatch failures on chosen paths through a fake watcher (hook H1); error-handler behaviours {ignore, elevate the "
+                "n-th, raise critical at the n-th, replace itself from inside, slow}. Oracle over the on_error log, the batches and "
+                "main()'s result: every fault id exactly once, the faulty event in no batch, all other accepted events delivered "
+                "(C01's oracle), main alive until the quit unless elevated / critical, then main ends with exactly that error and no "
+                "later batch; replacement takes effect for the next error only"),
+    level_note=_RT_NOTE + "; watcher-callback faults (queue overflow) are covered at most once by construction of the oracle (at-most-once clause)",
+    technique="fault injection at the filterer / watcher interface with an exactly-once checker over the error-handler log",
+    rule="evaluations = scenarios; non-trivial = history with >=2 batches or a batch of >=2 events (synthetic) or >=2 watcher calls, distinct by abstract history",
+    tiers={"quick": {"shards": NC, "budget": 40, "min_evaluations": 300}, "thorough": {"shards": NC, "budget": 420}},
+)
+
+prop(
+    "C13",
+    title="Watcher registration converges to the configured path set",
+    engine="wxlib",
+    level="fault_enumeration",
+    level_text=("seeded sequences (1-5 steps) of {pathset(S) for S over {a, b, a/c} with recursion modes, file_watcher(Native | Poll(d)), "
+                "throttle, keyboard_events, on_error replacement} issued while the fs worker is idle, back to back, from another OS "
+                "thread, from inside the action handler (which also replaces itself), from inside the error handler, and from inside "
+                "the n-th watch / unwatch call of the worker (a recording fake watcher installed through hook H1 calls back into the "
+                "driver at exactly that point of the worker's read-apply-wait cycle), with watch / unwatch failures injected per path "
+                "and attempt. Oracle at quiescence (recorder log stable, polled up to 2 s, heartbeat-guarded): exactly one live watcher "
+                "of the configured kind whose registered map (path -> recursion mode) equals the configured set minus paths whose last "
+                "watch attempt was made to fail; none when the set is empty; handler versions never go back; the reconfiguring "
+                "handler returns (10 s bounded progress)"),
+    level_note=_RT_NOTE + "; the real notify watchers are not involved here (the fake records what the worker asks for)",
+    technique="invariant check on hooked watcher state at quiescent points, with injected failures and injected re-entrancy at the watcher calls",
+    rule="evaluations = scenarios; non-trivial = >=2 watch/unwatch calls, distinct by the sequence of watcher events (create / watch / unwatch / failures / drop)",
+    tiers={"quick": {"shards": NC, "budget": 35, "min_evaluations": 800}, "thorough": {"shards": NC, "budget": 420}},
+)
